@@ -39,7 +39,8 @@ for e in kf["entries"]:
     out.append("| %s | %s | %s | %s |" % (e["property"], e["status"], e.get("commit") or ("class `%s`" % e.get("class")), what))
 
 out.append("\n### G.3 Independently seeded changes and which check catches them\n")
-out.append("Each change was written by a sub-agent that saw only the property text and a scratch worktree (nothing from /verif), "
+out.append("Rows marked property-PRESERVING (rounds 4 to 6: `-8`, `-10`, `-12`) are changes of behaviour under which the property still holds for every input: the check must not report a failing input for them (exit 0, or `no-failing-input-found` when the correspondence breaks). "
+           "Each change was written by a sub-agent that saw only the property text and a scratch worktree (nothing from /verif), "
            "confirmed here (demo passes on the clean tree, fails with the patch, 243 baseline tests still pass), then the property's check was run against the patched tree. "
            "`history` in `seeded/<id>/meta.json` keeps earlier runs, including the misses that led to a strengthened harness.\n")
 out.append("| seeded change | valid | caught by | failing input reported | first result (before strengthening) |\n|---|---|---|---|---|")
@@ -58,6 +59,20 @@ for d in sorted(glob.glob(os.path.join(V, "seeded", "*"))):
         what = str(rp["what_fails"]).replace("|", "\\|").replace("\n", " ")[:150]
     elif rp.get("kind"):
         what = rp["kind"]
+    sup = os.path.join(d, "superseded.md")
+    if os.path.exists(sup):
+        out.append("| %s | no longer | n/a | %s | %s |" % (m["name"], open(sup).read().strip().replace("\n", " ").replace("|", "\\|")[:400], first))
+        continue
+    if m.get("kind") == "preserving":
+        verdict = ("**FALSE ALARM** (failing input reported)" if m.get("caught_with_failing_input") else
+                   ("no alarm: `no-failing-input-found` (the correspondence or a tie breaks: allowed)" if m.get("caught") else "no alarm: exit 0"))
+        title = ""
+        try:
+            title = open(os.path.join(d, "notes.md")).read().split("\n")[0].lstrip("# ").strip()[:110]
+        except Exception:
+            pass
+        out.append("| %s (property-PRESERVING) | %s | %s | %s | %s |" % (m["name"], "yes" if m.get("valid_seed") else "NO", verdict, title.replace("|", "\\|"), ""))
+        continue
     out.append("| %s | %s | %s | %s | %s |" % (m["name"], "yes" if m.get("valid_seed") else "NO", ("`./check %s` (quick)" % m["property"]) if m.get("caught") else "**not caught**", what, first))
 
 text = "\n".join(out) + "\n"
